@@ -139,14 +139,16 @@ Definition step (s : mgr) (o : op) : res :=
       | None => Skip
       end
   | ODeleteInst h =>
-      if inst_alive s h && in_master h (master s) then
-        match m_find (inst_id s h) (sorted s) with
-        | Some h' => match find_node h' (master s) with
-                     | Some n => Ok (delete_node s n)
-                     | None => Crash
-                     end
-        | None => Crash              (* Delete(null node) *)
-        end
+      if inst_alive s h then
+        if in_master h (master s) then
+          match m_find (inst_id s h) (sorted s) with
+          | Some h' => match find_node h' (master s) with
+                       | Some n => Ok (delete_node s n)
+                       | None => Crash
+                       end
+          | None => Crash              (* Delete(null node) *)
+          end
+        else Ok s                      (* an instance this manager does not hold: nothing is deleted (whoever carries its id stays) *)
       else Skip
   | OChangeState i state =>
       match nth_error (master s) i with
